@@ -18,8 +18,10 @@ SYM = ["none", "require", "ensure", "snapshot", "foreign"]
 
 
 class StackWorld:
-    def __init__(self, seq: Tuple[int, ...], flavour: int) -> None:
-        """seq: decorators applied innermost first; flavour 0 def, 1 async def, 2 abstract method."""
+    def __init__(self, seq: Tuple[int, ...], flavour: int, fdict: bool = True) -> None:
+        """seq: decorators applied innermost first; flavour 0 def, 1 async def, 2 abstract method; fdict: the foreign
+        decorators copy the ``__dict__`` of what they wrap (functools.wraps default) or not (``updated=()``)."""
+        self.fdict = fdict
         self.truth = {}  # type: Dict[int, Any]
         self.log = []  # type: List[Tuple[Any, ...]]
         self.body_out = 0
@@ -90,13 +92,14 @@ class StackWorld:
 
     def _foreign(self, fn: Any, pos: int, is_async: bool) -> Any:
         w = self
+        updated = functools.WRAPPER_UPDATES if self.fdict else ()
         if is_async:
-            @functools.wraps(fn)
+            @functools.wraps(fn, updated=updated)
             async def wrapper(*a: Any, **k: Any) -> Any:
                 w.log.append(("foreign", pos))
                 return await fn(*a, **k)
         else:
-            @functools.wraps(fn)
+            @functools.wraps(fn, updated=updated)
             def wrapper(*a: Any, **k: Any) -> Any:  # type: ignore
                 w.log.append(("foreign", pos))
                 return fn(*a, **k)
@@ -108,14 +111,15 @@ META = ["__name__", "__qualname__", "__doc__", "__module__", "__annotations__"]
 
 
 def run_stack(flavour: int, d0: int, d1: int, d2: int, d3: int, d4: int, d5: int, bo: int,
-              t0: bool, t1: bool, t2: bool, t3: bool, t4: bool, t5: bool, x: int) -> Tuple[bool, bool]:
+              t0: bool, t1: bool, t2: bool, t3: bool, t4: bool, t5: bool, x: int, fd: bool = True) -> Tuple[bool, bool]:
     seq = tuple(conc(d, 0, 4) for d in (d0, d1, d2, d3, d4, d5))
     bo = conc(bo, 0, 2)
+    fd = True if fd else False
     with untraced():
-        w = _STACKS.get((seq, flavour))
+        w = _STACKS.get((seq, flavour, fd))
         if w is None:
-            w = StackWorld(seq, flavour)
-            _STACKS[(seq, flavour)] = w
+            w = StackWorld(seq, flavour, fd)
+            _STACKS[(seq, flavour, fd)] = w
         static_ok, expect_error = _static_checks(w, seq, flavour)
     ok = static_ok
     if expect_error:
@@ -173,7 +177,7 @@ def run_stack(flavour: int, d0: int, d1: int, d2: int, d3: int, d4: int, d5: int
             ok = False
     # every contract of the stack is enforced: each was evaluated unless an earlier one failed
     witness = len(pres) + len(posts) >= 2 and "foreign" in [SYM[s] for s in seq] and got[0] == "ret"
-    note(("stack", flavour, seq, bo, got[0]), witness)
+    note(("stack", flavour, seq, fd, bo, got[0]), witness)
     return ok, witness
 
 
@@ -233,7 +237,9 @@ def _static_checks(w: StackWorld, seq: Tuple[int, ...], flavour: int) -> Tuple[b
 # 2. classes given invariants: same class object; it and its subclasses can be used as before
 # ---------------------------------------------------------------------------------------------
 CLASS_SHAPES = ["plain_init", "plain_noinit", "slots", "dataclass", "namedtuple", "own_new", "dbc_init", "dbc_noinit",
-                "plain_this", "dbc_property_doc"]
+                "plain_this", "dbc_property_doc",
+                # __new__ acting as a factory (returns an object of another class); a diamond whose one arm defines __new__
+                "factory_new", "dbc_diamond_new"]
 SUB_SHAPES = ["none", "sub_plain", "sub_init_args", "sub_new_args", "sub_init_super"]
 
 
@@ -302,6 +308,17 @@ def _make_class(shape: str, sub: str, decorate: bool, log: List[Any]) -> Tuple[A
             inst.a = a
             return inst
         ns["__new__"] = __new__
+    if shape == "factory_new":
+        class Product(Helpers):
+            a = "product"
+
+            def pub(self: Any) -> Any:
+                return "pub"
+
+        def factory_new(cls: Any, a: Any = 1) -> Any:
+            return Product()
+        factory_new.__name__ = "__new__"
+        ns["__new__"] = factory_new
     if shape == "dataclass":
         ns["__annotations__"] = {"a": int}
         ns["a"] = 1
@@ -318,6 +335,19 @@ def _make_class(shape: str, sub: str, decorate: bool, log: List[Any]) -> Tuple[A
         if res is not base:
             raise AssertionError("invariant(...)(cls) is not cls")
     cls = base
+    if shape == "dbc_diamond_new":
+        # K <- B, K <- C (C defines __new__), D(B, C): constructing D must go through C.__new__
+        mk = type(base)
+        root = base
+        arm_b = mk("B", (root,), {})
+
+        def c_new(klass: Any, *a: Any) -> Any:
+            inst = root.__new__(klass)
+            inst.a = "made by C.__new__"
+            return inst
+        c_new.__name__ = "__new__"
+        arm_c = mk("C", (root,), {"__new__": c_new})
+        base = cls = mk("D", (arm_b, arm_c), {})
     if sub != "none":
         sns = {}  # type: Dict[str, Any]
         if sub == "sub_init_args":
@@ -367,7 +397,8 @@ def run_class(shape_i: int, sub_i: int) -> Tuple[bool, bool]:
     shape_i, sub_i = conc(shape_i, 0, len(CLASS_SHAPES) - 1), conc(sub_i, 0, len(SUB_SHAPES) - 1)
     shape, sub = CLASS_SHAPES[shape_i], SUB_SHAPES[sub_i]
     with untraced():
-        if shape in ("namedtuple", "dataclass", "own_new", "plain_noinit", "dbc_noinit") and sub == "sub_init_super":
+        if shape in ("namedtuple", "dataclass", "own_new", "plain_noinit", "dbc_noinit", "factory_new",
+                     "dbc_diamond_new") and sub == "sub_init_super":
             return True, False  # base.__init__() without arguments is not meaningful for these shapes
         log = []  # type: List[Any]
         _, bare_cls, args = _make_class(shape, sub, False, [])
@@ -378,9 +409,9 @@ def run_class(shape_i: int, sub_i: int) -> Tuple[bool, bool]:
             return False, False
         got = fresh(_use, deco_cls, args2)
         ok = got == want
-        # ... and the invariant is really in force on the decorated class
+        # ... and the invariant is really in force on the decorated class (a factory __new__ never makes an instance)
         witness = want[0] == "ok" and "inv" in log
-        if want[0] == "ok" and "inv" not in log:
+        if want[0] == "ok" and "inv" not in log and shape != "factory_new":
             ok = False
     note(("class", shape, sub, want[0], got[0]), witness)
     return ok, witness
@@ -424,7 +455,7 @@ def run_abstract(via_dbc: bool, member: int, sub_overrides: bool) -> Tuple[bool,
     return ok, True
 
 
-SALL = ["flavour", "d0", "d1", "d2", "d3", "d4", "d5", "bo", "t0", "t1", "t2", "t3", "t4", "t5", "x"]
+SALL = ["flavour", "d0", "d1", "d2", "d3", "d4", "d5", "bo", "t0", "t1", "t2", "t3", "t4", "t5", "x", "fd"]
 
 
 def harnesses(tier: str) -> List[H]:
@@ -434,7 +465,10 @@ def harnesses(tier: str) -> List[H]:
         for d0 in range(5):
             params = [I("d%d" % i, 0, 4) for i in range(1, depth)] + [I("bo", 0, 2)] + \
                      [B("t%d" % i) for i in range(depth)] + [I("x", -4, 12)]
-            defaults = {"flavour": flavour, "d0": d0}  # type: Dict[str, Any]
+            defaults = {"flavour": flavour, "d0": d0, "fd": True}  # type: Dict[str, Any]
+            if flavour != 2:
+                # (a foreign decorator that drops __dict__ also drops __isabstractmethod__ - not the library's doing)
+                params += [B("fd")]
             for i in range(depth, 6):
                 defaults["d%d" % i] = 0
                 defaults["t%d" % i] = True
@@ -442,9 +476,10 @@ def harnesses(tier: str) -> List[H]:
                 continue
             out.append(H("stack_{}_{}".format(fname, SYM[d0]), bind(run_stack, (), SALL, defaults, [p.name for p in params]),
                          params, tiers=(tier,), timeout=900 if tier == "quick" else 5400,
-                         family="{}: every sequence of {} decorators from {} (innermost: {}); truth of every contract and 3 "
+                         family="{}: every sequence of {} decorators from {} (innermost: {}); the foreign functools.wraps "
+                                "decorators copy __dict__ (default) or not (updated=()); truth of every contract and 3 "
                                 "body outcomes symbolic; metadata, signature, __wrapped__ chain and single-checker checked "
-                                "once per sequence".format(fname, depth, SYM, SYM[d0]), family_size=5 ** (depth - 1)))
+                                "once per sequence".format(fname, depth, SYM, SYM[d0]), family_size=2 * 5 ** (depth - 1)))
     AP = ["via_dbc", "member", "sub_overrides"]
     out.append(H("abstract_members", bind(run_abstract, (), AP, {}, AP), [B("via_dbc"), I("member", 0, 1), B("sub_overrides")],
                  tiers=(tier,), timeout=200,
